@@ -246,7 +246,32 @@ impl Property for C12 {
     }
 
     fn run_case(&self, k: u64, rng: &mut Rng, env: &Env, mon: &mut Monitor) {
-        let sc = scenario(k, rng, env.tier);
+        let mut sc = scenario(k, rng, env.tier);
+        // one successful scenario in five starts from an instance in which the target has been log-encoded once
+        // already (its bit variables are there, tagged with it); half of those then move the bound by an integer,
+        // so the second encoding has the same number of bits over another range. The judged call is the second one.
+        if sc.error.is_none() && rng.chance(1, 5) {
+            let mut i = sc.inst.clone();
+            let target = sc.target;
+            if matches!(probe(|| i.log_encode(target).map(|_| i)), Ok(Ok(_))) {
+                let mut i = sc.inst.clone();
+                let _ = i.log_encode(target);
+                if rng.bool() {
+                    let d = rng.range(-3, 3) as f64;
+                    if let Some(v) = i.decision_variables.iter_mut().find(|v| v.id == target) {
+                        if let Some(b) = v.bound.as_mut().filter(|b| (b.lower + d).abs() <= 1048576.0 && (b.upper + d).abs() <= 1048576.0) {
+                            b.lower += d;
+                            b.upper += d;
+                            sc.lower = b.lower;
+                            sc.upper = b.upper;
+                        }
+                    }
+                }
+                sc.inst = i;
+                mon.facet("target-already-encoded-once");
+            }
+        }
+        let sc = sc;
         let before = sc.inst.clone();
         let ctx = |after: &v1::Instance, r: &dyn std::fmt::Debug| format!("log_encode({}) with bound [{}, {}]\nresult={r:?}\nvariables before={:?}\nvariables after={:?}", sc.target, sc.lower, sc.upper, before.decision_variables, after.decision_variables);
         ommx::verif::start();
